@@ -82,8 +82,10 @@ def case_lagrange_pair(name, rep):
         batch = (1, 2)
         sva = svb = np.zeros((nsv,) + batch)
         # the same history is fed to both (each keeps its own state)
-        for k in range(2):
-            F = batch_F(rng, batch, lo=0.8, hi=1.3)
+        # load - unload - reload below and then beyond the former maximum (the history variables must remember the maximum)
+        amps = [(0.75, 1.35), (0.93, 1.08), (0.85, 1.2), (0.7, 1.45)] if name == "morph" else [(0.8, 1.3), (0.93, 1.08)]
+        for k, (lo_, hi_) in enumerate(amps):
+            F = batch_F(rng, batch, lo=lo_, hi=hi_)
             Pa, sva2 = a.gradient([F, sva])
             Pb, svb2 = b.gradient([F, svb])
             A_b = b.hessian([F, svb])[0]
